@@ -16,7 +16,7 @@ func init() {
 // C01 - routing selects the documented route with the correct parameters.
 func checkC01(r *Run) {
 	if os.Getenv("FOXCHECK_ONLY") == "lookupmodel" {
-		runLookupModel(r)
+		runLookupModel(r, true)
 		return
 	}
 	rng := rand.New(rand.NewSource(r.Seed))
@@ -27,7 +27,7 @@ func checkC01(r *Run) {
 	gh.Hosts = append(derivedHostsFirst(gh, pick(r, 8, 14)), "a.b", "a.ab", "a.b.ab")
 	runMatchD1(r, gh, "direct", false, pick(r, 5*time.Minute, 40*time.Minute))
 	runMatchD2(r, false, false)
-	runLookupModel(r)
+	runLookupModel(r, true) // with the negative runs (one per rule of the walk) in the thorough tier
 	r.assumption("the reference matcher of spec/FoxMatch.tla is the documented routing rule (DESIGN.md 3.1, 7)")
 	r.assumption("requests have no empty path segment")
 }
@@ -54,7 +54,7 @@ func checkC08(r *Run) {
 	runServeD1(r, newServeGen(r, rng), "C08", pick(r, 5*time.Minute, 40*time.Minute))
 	runServeD2(r, rng, "C08")
 	runServeDirtyStatic(r, rng)
-	runLookupModel(r)
+	runLookupModel(r, false)
 	r.assumption("Location is compared after RFC 3986 resolution against the request URL (net/url)")
 	r.assumption("CONNECT routes that ignore trailing slashes are not generated (DESIGN.md 7)")
 }
